@@ -126,9 +126,10 @@ class Path:
 class Summary:
     """guarded transitions of one handler body"""
 
-    def __init__(self, P, E, hb, item_param=3, item_kind="item", sink_param=None):
+    def __init__(self, P, E, hb, item_param=3, item_kind="item", sink_param=None, serial_param=None):
         self.P, self.E, self.b = P, E, hb
         self.sink_param = sink_param
+        self.serial_param = serial_param
         self.item_param = item_param
         self.item_kind = item_kind
         self.cellinfo = {}       # gcell -> ("int", init) | ("cont", kind) | ("obj", what)
@@ -207,7 +208,10 @@ class Summary:
                     if len(nxt) == 1 and nxt[0][0] == "agg":
                         st = cur_body.blocks[nxt[0][1][0]]["stmts"][nxt[0][1][1]]["rv"]
                         if st.get("ak") == "adt" and norm(st.get("def") or "") == "std::option::Option":
-                            res = ("optcell", st.get("variant") == "Some")
+                            lty = cur_body.locals[cur_body.blocks[nxt[0][1][0]]["stmts"][nxt[0][1][1]]["lhs"][0]]["ty"]
+                            targs = (lty.get("args") or [{}])
+                            isint = bool(targs) and targs[0].get("k") == "prim" and targs[0].get("s") in INT_TYS
+                            res = ("optcell", st.get("variant") == "Some", "int" if isint else "any")
                         else:
                             res = ("obj", "aggregate")
                         break
@@ -215,13 +219,50 @@ class Summary:
                     break
                 res = ("obj", norm(p))
                 break
+        elif rk == "param" and rd == 1 and path and body.kind == "assoc" and body.impl_self is not None:
+            res = self._field_kind(norm(ty_adt(body.impl_self) or ""), path[0]) or ("ext", None)
         elif rk in ("param", "upvar") or (rk == "ret" and path):
             res = ("ext", None)
         self.cellinfo[g] = res
         return res
 
+    def _field_kind(self, adt, field):
+        """kind of a lock-typed field of `adt`, read off the aggregate its constructor builds"""
+        a = self.P.adts.get(adt)
+        if a is None or len(a["variants"]) != 1:
+            return None
+        names = [f["name"] for f in a["variants"][0]["fields"]]
+        ren = self.P.facts.get("_field_renames_q") or {}
+        canon = [ren.get((adt, n), n) for n in names]
+        if field not in canon:
+            return None
+        idx = canon.index(field)
+        for cb in self.P.bodies.values():
+            if cb.kind not in ("assoc", "fn") or cb.id in self.P.absorbed:
+                continue
+            for i in sorted(cb.reach):
+                for st in cb.blocks[i]["stmts"]:
+                    if st["k"] == "assign" and st["rv"]["k"] == "agg" and st["rv"].get("ak") == "adt" and norm(st["rv"].get("def") or "") == adt:
+                        ops = st["rv"]["ops"]
+                        if idx >= len(ops):
+                            continue
+                        for t in cb.operand_prov(ops[idx]):
+                            if t[0] == "ret" and not t[2]:
+                                k = self._alloc_kind((cb.id, "ret", t[1], ()))
+                                if k and k[0] in ("int", "flag", "optcell", "cont"):
+                                    return k
+        return None
+
     def _sym(self, g):
         return "%s|%s|%s|%s" % (norm(g[0]), g[1], g[2], "/".join(g[3]))
+
+    def cellsym(self, g):
+        """state-vector name of a cell (or of the integer payload of an Option cell)"""
+        if len(g) == 2 and g[1] == "val":
+            return "ov:" + self._sym(g[0])
+        k = self.cellinfo.get(g)
+        pre = {"int": "", "flag": "f:", "optcell": "o:", "cont": "len:"}.get(k[0] if k else "", "")
+        return pre + self._sym(g)
 
     # -- evaluation
     def _item_variants(self):
@@ -263,8 +304,10 @@ class Summary:
                 if isinstance(v, tuple) and v and v[0] == "tuple" and e.startswith(".") and e[1:].split(":")[0].isdigit():
                     i = int(e[1:].split(":")[0])
                     v = v[1][i] if i < len(v[1]) else TOP
-                elif isinstance(v, tuple) and v and v[0] == "opt" and e.startswith("@"):
+                elif isinstance(v, tuple) and v and v[0] in ("opt", "res") and e.startswith("@"):
                     continue
+                elif isinstance(v, tuple) and v and v[0] == "res" and e.startswith("."):
+                    v = v[2]
                 elif isinstance(v, tuple) and v and v[0] == "item" and e.startswith("@"):
                     v = ("itemfield", e[1:])
                 elif isinstance(v, tuple) and v and v[0] == "itemfield" and e.startswith("."):
@@ -283,6 +326,9 @@ class Summary:
             # the payload of an Option-valued state cell: ((*cell) as Some).0
             root = (g[0], g[1], g[2], ())
             if (self._alloc_kind(root) or ("?",))[0] == "optcell":
+                vk = (root, "val")
+                if vk in p.cells or self._is_intlike(self._place_ty(place)) or want_int:
+                    return p.cells.get(vk, INT("ov:" + self._sym(root)))
                 return ("stored",)
         kind = self._alloc_kind(g)
         ty = self._place_ty(place)
@@ -292,14 +338,19 @@ class Summary:
             return TOP
         if kind and kind[0] == "optcell":
             if ty is None or norm(ty_adt(ty) or "") == "std::option::Option":
-                return ("opt", p.cells.get(g, ("bvar", "o:" + self._sym(g))), ("stored",))
+                dflt = INT("ov:" + self._sym(g)) if (len(kind) > 2 and kind[2] == "int") else ("stored",)
+                return ("opt", p.cells.get(g, ("bvar", "o:" + self._sym(g))), p.cells.get((g, "val"), dflt))
             return TOP
         if not want_int and ty is not None and not self._is_intlike(ty):
             return TOP
         if kind and kind[0] == "int":
             return p.cells.get(g, INT(self._sym(g)))
         if kind and kind[0] == "ext" and g[0] == b.id and g[1] == "param":
-            return (self.item_kind,) if g[2] == self.item_param else TOP      # the handler's own arguments
+            if g[2] == self.item_param:
+                return (self.item_kind,)
+            if self.serial_param is not None and g[2] == self.serial_param and not g[3]:
+                return INT("in:serial")
+            return TOP      # the handler's own arguments
         if kind and kind[0] == "ext":
             # a captured plain value (the operator's parameter): immutable symbol
             if ty is not None and not self._is_intlike(ty) and not want_int:
@@ -393,6 +444,8 @@ class Summary:
                 return ("disc", v[1])
             if isinstance(v, tuple) and v and v[0] == "ord":
                 return ("orddisc", v[1], v[2])
+            if isinstance(v, tuple) and v and v[0] == "res":
+                return ("disc", b_not(v[1]))         # Ok = 0, Err = 1
             if isinstance(v, tuple) and v and v[0] == "item":
                 names = self._item_variants()
                 if names:
@@ -433,6 +486,8 @@ class Summary:
             elif kind and kind[0] == "optcell":
                 if len(gs) == 1 and isinstance(v, tuple) and v and v[0] == "opt" and is_bool(v[1]):
                     p.cells[g] = v[1]
+                    if is_int(v[2]):
+                        p.cells[(g, "val")] = v[2]
                     if v[1] != FALSE:
                         p.trace.append(("remember", self._vkind(v[2])))
                 else:
@@ -579,6 +634,12 @@ class Summary:
                 p.trace.append(("cont_" + name,))
                 return done(p)
             return done(p)
+        if path == "std::collections::HashMap::insert" and len(c.args) >= 2:
+            kv = self.operand(p, c.args[1], True)
+            p.trace.append(("map_insert",))
+            if is_int(kv):
+                p.note.append(("mapkey", kv))
+            return done(p)
         if path in ("std::mem::take", "std::mem::replace") and c.args:
             gs = self._gcells(b.operand_prov(c.args[0]))
             if gs and len(gs) == 1:
@@ -640,6 +701,17 @@ class Summary:
                 if name in ("store", "swap") and is_int(arg):
                     p.cells[g] = arg
                     return done(p, old)
+                if name in ("compare_exchange", "compare_exchange_weak", "compare_and_swap") and len(c.args) > 2 and is_int(old) and is_int(arg):
+                    newv = self.operand(p, c.args[2], True)
+                    hit = ("cmp", "Eq", old, arg)
+                    if is_int(newv):
+                        q = p.fork()
+                        p.pc.append(hit)
+                        p.cells[g] = newv
+                        done(p, ("res", TRUE, old))
+                        q.pc.append(b_not(hit))
+                        done(q, ("res", FALSE, old))
+                        return
                 p.cells[g] = TOP
                 return done(p)
         last = path.split("::")[-1]
@@ -713,6 +785,17 @@ class Summary:
                 is_int(self.operand(p, c.args[0], True)) and is_int(self.operand(p, c.args[1], True)):
             return done(p, ("cmp", "Eq" if path.endswith("::eq") else "Ne", self.operand(p, c.args[0], True), self.operand(p, c.args[1], True)))
         if path in ("std::cmp::PartialEq::eq", "std::cmp::PartialEq::ne") and len(c.args) == 2:
+            o1, o2 = self.operand(p, c.args[0]), self.operand(p, c.args[1])
+            if all(isinstance(o, tuple) and o and o[0] == "opt" and is_bool(o[1]) for o in (o1, o2)) and \
+                    all(is_int(o[2]) or o[1] == FALSE for o in (o1, o2)):
+                both = ("and", o1[1], o2[1])
+                if is_int(o1[2]) and is_int(o2[2]):
+                    both = ("and", both, ("cmp", "Eq", o1[2], o2[2]))
+                elif o1[1] != FALSE and o2[1] != FALSE:
+                    both = FALSE
+                e_ = ("or", both, ("and", b_not(o1[1]), b_not(o2[1])))
+                return done(p, e_ if path.endswith("::eq") else b_not(e_))
+        if path in ("std::cmp::PartialEq::eq", "std::cmp::PartialEq::ne") and len(c.args) == 2:
             ks = sorted(self._payload_kind(p, c, i) for i in (0, 1))
             e = ("bvar", "in:eq:" + "=".join(ks))
             return done(p, e if path.endswith("::eq") else b_not(e))
@@ -780,6 +863,11 @@ class Summary:
             return done(p, ("window",))
         if a == "is_subscribed":
             return done(p, TOP)
+        if path in ("std::result::Result::is_ok", "std::result::Result::is_err") and c.args:
+            v = self.operand(p, c.args[0])
+            if isinstance(v, tuple) and v and v[0] == "res":
+                return done(p, v[1] if path.endswith("is_ok") else b_not(v[1]))
+            return done(p)
         if path in ("std::option::Option::is_some", "std::option::Option::is_none") and c.args:
             v = self.operand(p, c.args[0])
             if isinstance(v, tuple) and v and v[0] == "opt" and is_bool(v[1]):
@@ -795,11 +883,16 @@ class Summary:
                         return done(p, ("bufcopy",))
             if isinstance(v, tuple) and v and v[0] in ("opt", "item", "front", "back", "bufcopy", "window", "int", "tuple", "captured",
                                                        "stored", "mapped", "error", "bvar", "bconst", "combined", "adt", "itemfield",
-                                                       "boxed"):
+                                                       "boxed", "res", "cmp", "not", "and", "or"):
                 if v[0] == "opt" and path.endswith("unwrap"):
                     return done(p, v[2])
                 return done(p, v)
             return done(p)
+        if self.sink_param is not None and path.startswith("std::iter::Iterator::"):
+            for t in self.E.inline_targets(c):
+                if self.E.may(t) & {"obs_next"}:
+                    p.trace.append(("sink_next", "other"))
+                    return done(p)
         # anything else: a crate-local call that may emit is outside the abstraction
         cb = self.E.callee_body(c)
         if cb is not None:
@@ -818,6 +911,8 @@ class Summary:
         start = Path()
         if b.argc >= self.item_param:
             start.env[self.item_param] = (self.item_kind,)
+        if self.serial_param is not None and b.argc >= self.serial_param and self._is_intlike(b.locals[self.serial_param]["ty"]):
+            start.env[self.serial_param] = INT("in:serial")
         work = [(start, 0)]
         steps = 0
         while work:
@@ -991,7 +1086,7 @@ class Summary:
                     nxt[g] = ev_int(v, sigma)
                 else:
                     raise Undecided("state update not representable (%s)" % "; ".join(str(x) for x in p.note or ["?"]))
-            res[(tr, tuple(sorted((self._sym(g), v) for g, v in nxt.items())))] = (p, nxt)
+            res[(tr, tuple(sorted((self.cellsym(g), v) for g, v in nxt.items())))] = (p, nxt)
         return res
 
 
@@ -1293,7 +1388,12 @@ def _show_i(v):
     if v[1] is None:
         return str(v[2])
     s = v[1].split("|")
-    nm = "len" if v[1].startswith("len:") else ("count" if s[1] in ("param", "upvar") else "n")
+    if v[1].startswith("in:"):
+        nm = v[1][3:]
+    elif v[1].startswith("ov:"):
+        nm = "stored"
+    else:
+        nm = "len" if v[1].startswith("len:") else ("count" if len(s) > 1 and s[1] in ("param", "upvar") else "n")
     return nm if v[2] == 0 else "%s%+d" % (nm, v[2])
 
 
